@@ -605,12 +605,17 @@ def weave_fn(w, item_id, text, spec, log):
     else:
         newsig = text[:sig_end]
     attrs = ''
+    body = text[sig_end:]
     if spec.get('trusted'):
+        # assumed contract: only the signature is kept (it must still match the repository's),
+        # the body is not examined by the verifier at all
         attrs = '#[verifier::external_body] '
+        body = '{ unimplemented!() }'
+        log.append(('R21', '%s: trusted - body dropped, contract assumed' % item_id))
     if spec.get('attrs'):
         attrs += spec['attrs'] + ' '
     head = newsig[:toks[0].start] + attrs + newsig[toks[0].start:]
-    return head.rstrip() + contract + text[sig_end:]
+    return head.rstrip() + contract + body
 
 
 def weave_impl(w, item_id, text, spec, log, metas, base_meta):
